@@ -46,6 +46,7 @@ type Site struct {
 	Effects    []string `json:"effects"`
 	Detail     []string `json:"detail"`
 	Callees    []string `json:"callees"`
+	SortKeys   []string `json:"sortKeys"`
 	OutsideRun bool     `json:"outsideRun"`
 	Leak       string   `json:"leak,omitempty"` // for leakCall: the leak function called
 	fnKey      string
@@ -404,7 +405,7 @@ func (x *extractor) findSites() {
 				c := &classifier{x: x, p: p, fn: fi, parents: parents, file: f}
 				eff := c.classifyLoop(rs)
 				s := &Site{File: file, Line: line, Func: fi.name, Kind: "range", MapType: types.TypeString(t, shortQual),
-					PtrKey: addressLike(mt.Key()), Effects: eff.tags(), Detail: eff.details(), Callees: c.calleeList(),
+					PtrKey: addressLike(mt.Key()), Effects: eff.tags(), Detail: eff.details(), Callees: c.calleeList(), SortKeys: eff.sortKeys(),
 					OutsideRun: !x.reach[fi.key], fnKey: fi.key}
 				x.sites = append(x.sites, s)
 				for _, e := range eff {
@@ -564,7 +565,7 @@ func (x *extractor) findLeakCalls() {
 					} else {
 						c := &classifier{x: x, p: p, fn: fi, parents: parents, file: f}
 						eff := c.classifyLeakCall(call)
-						s.Effects, s.Detail, s.Callees = eff.tags(), eff.details(), c.calleeList()
+						s.Effects, s.Detail, s.Callees, s.SortKeys = eff.tags(), eff.details(), c.calleeList(), eff.sortKeys()
 						for _, e := range eff {
 							if e.tag == "collectReturn" && !x.leaks[fi.key] {
 								x.leaks[fi.key] = true
@@ -740,6 +741,9 @@ func (x *extractor) finish() {
 		if s.Detail == nil {
 			s.Detail = []string{}
 		}
+		if s.SortKeys == nil {
+			s.SortKeys = []string{}
+		}
 	}
 }
 
@@ -783,9 +787,9 @@ func (x *extractor) lean() string {
 		if s.Kind == "leakCall" {
 			kind = ".leakCall"
 		}
-		fmt.Fprintf(&b, "  { file := %s, func := %s, line := %d, kind := %s, effects := %s, callees := %s, outsideRun := %v, ptrKey := %v }",
+		fmt.Fprintf(&b, "  { file := %s, func := %s, line := %d, kind := %s, effects := %s, callees := %s, sortKeys := %s, outsideRun := %v, ptrKey := %v }",
 			leanStr(s.File), leanStr(s.Func), s.Line, kind,
-			leanList(s.Effects, func(e string) string { return "." + e }), leanList(s.Callees, leanStr), s.OutsideRun, s.PtrKey)
+			leanList(s.Effects, func(e string) string { return "." + e }), leanList(s.Callees, leanStr), leanList(s.SortKeys, leanStr), s.OutsideRun, s.PtrKey)
 		if i+1 < len(x.sites) {
 			b.WriteString(",")
 		}
